@@ -18,6 +18,9 @@ pub mod main_extract {
 pub mod mc;
 pub mod props;
 
+#[global_allocator]
+static GLOBAL: mc::alloc::Counting = mc::alloc::Counting;
+
 fn main() {
     std::process::exit(mc::cli::main())
 }
